@@ -96,6 +96,14 @@ class Ob:
                     drifted[f.name] = ("renamed", gone, set(names), f"`{f.name}` no longer has the parameter(s) {gone} (renamed or removed)")
                     continue
                 shim = []
+                # parameters whose default became a private "not given" sentinel (`_MISSING = object()`): the function
+                # now tells 'left out' from 'passed' itself - an argument shim even where nothing was required before
+                for prm in f.params:
+                    d_ = prm.default
+                    if isinstance(d_, _ast.Name) and d_.id in f.module.constants:
+                        v_ = f.module.constants[d_.id]
+                        if isinstance(v_, _ast.Call) and isinstance(v_.func, _ast.Name) and v_.func.id == "object" and not v_.args:
+                            shim.append(prm.name)
                 for n in req.get(q, []):
                     prm = f.param(n)
                     if n in ("self", "cls") or prm is None or prm.default is None or not (isinstance(prm.default, _ast.Constant) and prm.default.value is None):
